@@ -193,6 +193,8 @@ CONSTANTS ValidateOnPrint,   \* TRUE = pinned tree, FALSE = as required
           MaxSrc,            \* ParseText: sources of at most MaxSrc definitions (0 = no ParseText)
           TrackQueries,      \* TRUE: a pure query is remembered in lastq until the next call
           StickyQueries,     \* TRUE: ... and mutators keep it, so that several edits can follow the query
+          Preset,            \* "" | "typed": the history starts with a fixed call sequence (part of hist, not counted
+                             \* by MaxCalls) that builds a global, a function, an alloca and typed uses of both
           Observers,         \* subset of {"PrintModule","PrintFunc","PrintBlock","QueryType","QueryIdent","QueryOperands","QuerySuccs"}
           EmitFile
 
@@ -577,7 +579,28 @@ ParseW(src) ==
 (* The state machine *)
 
 NoQuery == <<"", 0>>
-Room == MaxCalls = 0 \/ Len(hist) < MaxCalls
+EmptyWorld == [gl |-> EmptyGl, fn |-> <<>>, md |-> <<>>]
+\* Preset "typed": m.NewGlobal; m.NewFunc; f.NewBlock + NewRet; NewAlloca; a use of the alloca; a use of the global.
+\* The scaffold costs no depth, so that the bounded histories are spent on field edits and observers
+\* (set AddrSpace, observe, set it back, print needs 4 calls after the 6 of the scaffold).
+PW1 == NewGlobalW(EmptyWorld, "globals", "")
+PW2 == NewFuncW(PW1, "", <<>>)
+PW3 == NewBlockW(PW2, 1, "", Term("ret", "", "none"))
+PW4 == InsertInstW(PW3, 1, 1, 1, IInst("", "value", "alloca", NoRef))
+PW5 == InsertInstW(PW4, 1, 1, 2, IInst("", "void", "use", Ref("alloca", 0)))
+PW6 == InsertInstW(PW5, 1, 1, 3, IInst("", "void", "use", Ref("global", 1)))
+PresetWorld == IF Preset = "typed" THEN PW6 ELSE EmptyWorld
+InsCall(p, res, iop, r) == [op |-> "InsertInst", f |-> 1, b |-> 1, p |-> p, nm |-> "", res |-> res,
+                            iop |-> iop, rt |-> r.t, ri |-> r.i, rb |-> r.b]
+PresetHist == IF Preset = "typed"
+              THEN << [op |-> "NewGlobal", g |-> "globals", nm |-> ""],
+                      [op |-> "NewFunc", nm |-> "", ps |-> <<>>],
+                      [op |-> "NewBlock", f |-> 1, nm |-> "", k |-> "ret", tn |-> "", res |-> "none"],
+                      InsCall(1, "value", "alloca", NoRef),
+                      InsCall(2, "void", "use", Ref("alloca", 0)),
+                      InsCall(3, "void", "use", Ref("global", 1)) >>
+              ELSE <<>>
+Room == MaxCalls = 0 \/ Len(hist) < MaxCalls + Len(PresetHist)
 
 Mutate(W(_), call) ==     \* W = function world -> world
   /\ Room
@@ -596,9 +619,8 @@ Observe(r, call) ==       \* r = [w, out] for the state; the twin skips observer
   /\ hist' = Append(hist, call)
   /\ UNCHANGED <<twin, parsed>>
 
-EmptyWorld == [gl |-> EmptyGl, fn |-> <<>>, md |-> <<>>]
-Init == /\ gl = EmptyGl /\ fn = <<>> /\ md = <<>> /\ twin = EmptyWorld
-        /\ out = Ok(<<>>, <<>>, <<>>) /\ parsed = FALSE /\ lastq = NoQuery /\ hist = <<>>
+Init == /\ gl = PresetWorld.gl /\ fn = PresetWorld.fn /\ md = <<>> /\ twin = PresetWorld
+        /\ out = Ok(<<>>, <<>>, <<>>) /\ parsed = FALSE /\ lastq = NoQuery /\ hist = PresetHist
 
 ParseText ==
   /\ hist = <<>> /\ MaxSrc > 0
